@@ -21,6 +21,12 @@ def random_header(rng, family):
         variant = rng.choice(["fcfs", "prio", "prio", "filter", "filter"])
         td = rng.choice([0, 0, 1, 2, 4]) if variant == "filter" else 0
         return f"new pos {cap} {int(variant != 'fcfs')} {int(variant == 'filter')} {td}"
+    if family == "buf":
+        cap = rng.choice(["1", "1", "2", "2", "3", "4", "5", "inf"])
+        return f"new buf {cap} {rng.choice(['FIFO', 'FIFO', 'LIFO'])}"
+    if family == "bufedge":
+        cap = rng.choice(["1", "1", "2", "2", "3", "4", "5"])
+        return f"new bufedge {cap} {rng.choice(['FIFO', 'FIFO', 'LIFO'])}"
     raise ValueError(family)
 
 def gen_history(rng, header, nops, malformed=0.2, stats=None):
@@ -39,9 +45,11 @@ def gen_history(rng, header, nops, malformed=0.2, stats=None):
         return rng.choice(c) if c else None
 
     kinds = {}
+    gone = set()
     def new_item():
         if next_item[0] > 0 and rng.random() < 0.05:
-            return rng.randrange(next_item[0])       # the same object put again
+            i = rng.randrange(next_item[0])          # the same object put again
+            if family == "pos" or rng.random() < 0.15 or i in gone: return i
         next_item[0] += 1
         kinds[next_item[0] - 1] = rng.randrange(3)
         return next_item[0] - 1
@@ -88,9 +96,9 @@ def gen_history(rng, header, nops, malformed=0.2, stats=None):
                 op = put_op(rng.randrange(nact), len(toks) + 5) if rng.random() < .5 else ("get", rng.randrange(nact), len(toks) + 5)
         if op is None:
             r = rng.random()
-            if r < 0.20:
+            if r < 0.18:
                 op = ("rp", rng.randrange(nact), rng.choice(PRIOS))
-            elif r < 0.40:
+            elif r < 0.38:
                 op = ("rg", rng.randrange(nact), rng.choice(PRIOS), rng.choice(FILTS) if is_filter else "always")
             elif r < 0.58:
                 t = pick("put", "granted")
@@ -105,8 +113,12 @@ def gen_history(rng, header, nops, malformed=0.2, stats=None):
                 op = ("adv", rng.choice(ADVS))
             elif r < 0.94:
                 op = ("settle",)
-            elif r < 0.97:
+            elif r < 0.96:
                 op = ("kstep",)
+            elif family in ("buf", "bufedge") and r < 0.985:
+                op = ("probe", rng.choice(["can_put", "can_get", "occ", "ready"]))
+            elif family in ("buf", "bufedge") and r < 0.99:
+                op = ("final",)
             else:
                 op = ("stat",)
         if op is None:
@@ -119,10 +131,12 @@ def gen_history(rng, header, nops, malformed=0.2, stats=None):
             toks.append(TokState(tid, "put" if op[0] == "rp" else "get", op[1], op[2]))
         if "|" in line:
             for x in line.split("|")[1].split():
-                toks[int(x)].state = "granted"
+                toks[int(x.split('@')[0])].state = "granted"
             head = line.split("|")[0].strip()
             if op[0] in ("put", "get") and not head.startswith("err") and op[2] < len(toks):
                 toks[op[2]].state = "used"
+            if op[0] == "get" and head.startswith("item "): gone.add(int(head.split()[1]))
+            if op[0] == "put" and head == "ok": gone.discard(op[3])
             if op[0] in ("cp", "cg") and head == "ok" and op[1] < len(toks):
                 toks[op[1]].state = "cancelled"
         if stats is not None:
